@@ -12,8 +12,7 @@ theorem process_eq (ae : Ax.Env) :
       if HeaderMap.value ae.tokenHeader ae.hdrs == ae.token then ([], true) else ([Ax.Act.err 403], false) := by
   unfold LocalAuthMiddleware_process
   unfold_auth_helpers
-  simp only [Ax.err, List.nil_append]
-  cases h : (HeaderMap.value ae.tokenHeader ae.hdrs == ae.token) <;> simp_all
+  by_cases h : HeaderMap.value ae.tokenHeader ae.hdrs = ae.token <;> simp [Ax.err, h]
 
 /-- a request without any header is refused (the token is never empty: it is a UUID) -/
 theorem no_header (ae : Ax.Env) (hh : ae.hdrs = []) (ht : ae.token ≠ []) :
